@@ -23,7 +23,8 @@ Conj2(s, t) == C(",", <<s, t>>)
 L3(x, y, z) == Cons(x, Cons(y, Cons(z, Nil)))
 Shapes == { a, X, F(X), F(a), Nil, I(1), Cons(X, Y), Cons(X, Cons(Y, Z)), Cons(X, Cons(Y, Nil)), Cons(a, Cons(X, Y)), Cons(X, Cons(X, Y)),
             Cons(Cons(X, Y), Z), F(Cons(X, Y)), G(X, Cons(Y, Z)), L3(a, b, a), Cons(a, Cons(b, Nil)), Cons(X, a), Cons(a, Nil), G(X, X),
-            L3(X, Y, Z), Cons(X, Cons(Y, Cons(Z, X))), G(F(X), L3(a, Y, Z)), Cons(a, Cons(b, Cons(a, Cons(b, Nil)))), Cons(X, Cons(b, Cons(Z, Y))) }
+            L3(X, Y, Z), Cons(X, Cons(Y, Cons(Z, X))), G(F(X), L3(a, Y, Z)), Cons(a, Cons(b, Cons(a, Cons(b, Nil)))), Cons(X, Cons(b, Cons(Z, Y))),
+            C("f", <<X, Y>>), C("g", <<X>>), F(C("f", <<a, Y>>)) }       \* the same names with other arities: f/2 beside f/1, g/1 beside g/2
 Small == { X, Cons(X, Cons(Y, Z)), L3(a, b, a), Cons(a, Cons(X, Y)), F(Y), Cons(Y, Nil) }
 
 CONSTANT MODES
